@@ -241,6 +241,13 @@ pub struct Interpreter {
     native_stack_base: usize,
     native_reentry_depth: usize,
 
+    /// Verification hooks (only with `--cfg tsrun_verif`): instructions executed and deepest
+    /// native re-entry since the host last reset them.
+    #[cfg(tsrun_verif)]
+    pub verif_instr_count: u64,
+    #[cfg(tsrun_verif)]
+    pub verif_max_reentry: usize,
+
     /// Roots for the values held by `exports` (the scratch map is invisible to the
     /// collector); cleared together with the map.
     pub(crate) exports_guard: Guard<JsObject>,
@@ -498,6 +505,10 @@ impl Interpreter {
             exports: FxHashMap::default(),
             native_stack_base: 0,
             native_reentry_depth: 0,
+            #[cfg(tsrun_verif)]
+            verif_instr_count: 0,
+            #[cfg(tsrun_verif)]
+            verif_max_reentry: 0,
             exports_guard,
             call_stack: Vec::new(),
             next_generator_id: 1,
@@ -3960,6 +3971,10 @@ impl Interpreter {
             return Err(JsError::range_error("Maximum call stack size exceeded"));
         }
         self.native_reentry_depth += 1;
+        #[cfg(tsrun_verif)]
+        {
+            self.verif_max_reentry = self.verif_max_reentry.max(self.native_reentry_depth);
+        }
         let result = self.call_function_with_new_target_inner(callee, this_value, args, new_target);
         self.native_reentry_depth -= 1;
         result
